@@ -134,6 +134,27 @@ def check_op(built, f, op, tier, timeout=120, cfg="default"):
         ob.unknown("executor: %s" % e)
         return obs
     nval = validate_translation(built, drv, f, ins, out, rnd)
+    if op == "xsquare0":
+        # zero squarings: the operand itself, bit for bit
+        same = all((x is y) for x, y in zip(out, ins["a"]))
+        if same:
+            return [ob.ok("syntactic (result limbs are the operand limbs)", time.time() - t0, 0, syntactic=True)]
+        from engines.llsym.smt import BVEmitter
+        em = BVEmitter()
+        diffs = ["(distinct %s %s)" % (em.ref(x, 64) if isinstance(x, T.Term) else "(_ bv%d 64)" % x, em.ref(y, 64)) for x, y in zip(out, ins["a"])]
+        v, mod, dt = run_solver(em.script(["(or %s)" % " ".join(diffs)]), "z3", timeout)
+        if v == "unsat":
+            return [ob.ok("z3-bv", time.time() - t0)]
+        if v == "sat":
+            return [_confirm(ob, built, drv, f, op, _model_inputs(parse_model(mod), built, drv), "z3-bv", time.time() - t0)]
+        # undecided: value-level replay (xsquare(0) must return the same field value)
+        for it in range(2000):
+            inputs = {"a": int_limbs(rnd.choice(boundary_values(f, rnd)), f.n, 64)}
+            ok_, detail = native_check(built, drv, f, op, inputs)
+            if not ok_:
+                detail.update({"key": "%s.%s" % (f.tag, op), "found_by": "solver %s; native replay" % v, "driver": drv})
+                return [ob.fail(detail, "replay", time.time() - t0)]
+        return [ob.unknown("xsquare(0) vs operand: " + v, "z3-bv", time.time() - t0)]
     if op.startswith("xsquare"):
         # same DAG as repeated square on the real code
         drv2 = "drv_%s_%s" % (f.tag, "sqsq")
